@@ -1,10 +1,10 @@
 package harness
 
 import (
-	"os"
 	"encoding/json"
 	"fmt"
 	"math/rand"
+	"os"
 	"regexp"
 	"sort"
 	"strings"
@@ -57,6 +57,8 @@ func callArgPositions(text string) []Pos {
 	}
 	return out
 }
+
+const c09TwiceText = "---@class Twice\n---@field first number\nlocal TA = {}\n---@type Twice\nlocal mid = nil\nprint(mid.first, mid.second)\n---@class Twice\n---@field second string\nlocal TB = {}\nprint(TA, TB)\n"
 
 func genC09(seed int64, tier string) *Scenario {
 	r := rand.New(rand.NewSource(seed))
@@ -155,6 +157,14 @@ func genC09(seed int64, tier string) *Scenario {
 		}
 		use.WriteString("local nat = require(\"native\")\nprint(nat)\n")
 		sc.Knobs["native"] = true
+	}
+	twice := r.Intn(2) == 0
+	if twice {
+		// one file defines the same annotation type twice (legal: only a hint) and uses it between
+		// the two definitions; another file resolves the type through the project-wide table
+		sc.Files = append(sc.Files, File{Path: "d0/twice.lua", Data: Bytes(c09TwiceText)})
+		use.WriteString("---@type Twice\nlocal tw = nil\nprint(tw.first, tw.second)\n")
+		sc.Knobs["twice"] = true
 	}
 	projectMode := r.Intn(4) == 0
 	if projectMode {
@@ -273,6 +283,40 @@ func genC09(seed int64, tier string) *Scenario {
 	other := sc.Files[r.Intn(len(sc.Files))].Path
 	sc.Ops = append(sc.Ops, Op{Kind: "req", Method: "documentSymbol", Path: other})
 
+	// a burst of read-only requests in flight together: in which order the handlers get the request
+	// mutex is the scheduler's choice, and no answer may depend on it (a query that rearranges
+	// shared state for the next one would show here)
+	type target struct {
+		path string
+		pos  Pos
+	}
+	var targets []target
+	for _, p := range identPositions(useText) {
+		targets = append(targets, target{"use.lua", p})
+	}
+	if twice {
+		sc.Ops = append(sc.Ops, Op{Kind: "open", Path: "d0/twice.lua"})
+		for _, p := range identPositions(c09TwiceText) {
+			targets = append(targets, target{"d0/twice.lua", p})
+		}
+	}
+	if len(targets) > 0 {
+		nb := 3 + r.Intn(5)
+		for i := 0; i < nb; i++ {
+			tg := targets[r.Intn(len(targets))]
+			pos := tg.pos
+			m := []string{"hover", "hover", "definition", "references", "highlight", "signatureHelp", "completion"}[r.Intn(7)]
+			sc.Ops = append(sc.Ops, Op{Kind: "req", Method: m, Path: tg.path, Pos: &pos, Async: true})
+		}
+		sc.Ops = append(sc.Ops, Op{Kind: "settle"})
+		// and the same questions once more, one at a time
+		for i := 0; i < 3; i++ {
+			tg := targets[r.Intn(len(targets))]
+			pos := tg.pos
+			sc.Ops = append(sc.Ops, Op{Kind: "req", Method: "hover", Path: tg.path, Pos: &pos})
+		}
+	}
+
 	k := 8
 	if tier == "thorough" {
 		k = 12
@@ -333,7 +377,9 @@ func diffViews(a, b map[string][]string) (types []string, detail string) {
 	for t := range seen {
 		types = append(types, t)
 	}
-	sort.Slice(types, func(i, j int) bool { return len(types[i]) < len(types[j]) || (len(types[i]) == len(types[j]) && types[i] < types[j]) })
+	sort.Slice(types, func(i, j int) bool {
+		return len(types[i]) < len(types[j]) || (len(types[i]) == len(types[j]) && types[i] < types[j])
+	})
 	return
 }
 
@@ -474,7 +520,6 @@ func distinct(xs []string) int {
 	}
 	return len(m)
 }
-
 
 // explainDiff renders the difference of two normalised answers: for JSON arrays the elements
 // present on one side only, otherwise both values clipped.
